@@ -243,7 +243,17 @@ def run_case(inp):
                 sig = float(inp["sigma"])                       # particle size (px)
                 pts = _layout(r, shape, int(np.ceil(6 * sig)), int(np.ceil(3 * sig)), int(inp["n"]))
                 plateau = inp.get("plateau")
-                if plateau is not None:
+                if inp.get("diag"):
+                    # pairs of point particles of unequal brightness on a space diagonal: farther apart than the
+                    # exclusion distance (5.2 px > sigma), but within ceil(sigma) voxels along every single axis
+                    base = _layout(r, shape, int(np.ceil(6 * sig)) + 4, int(np.ceil(3 * sig)) + 3, int(inp["n"]))
+                    sgn = [[int(v) for v in r.choice([-3, 3], size=3)] for _ in base]
+                    pts = [list(b) for b in base] + [[b[d] + g[d] for d in range(3)] for b, g in zip(base, sgn)]
+                    a0 = np.zeros(shape, dtype=np.float32)
+                    for j, q in enumerate(pts):
+                        a0[tuple(q)] = [100.0, 80.0, 90.0][j % 3] if j < len(base) else [70.0, 100.0, 60.0][j % 3]
+                    img = _cast(a0, inp["dtype"])
+                elif plateau is not None:
                     # particles centred between two voxels along one axis: two equal maxima, one particle
                     e = np.eye(3, dtype=int)[int(plateau)]
                     a0 = np.zeros(shape, dtype=np.float32)
@@ -492,6 +502,12 @@ def oracle(rng, thorough, deep=False, hints=None):
                           scale=float([1.0, 0.5, 2.0, 0.2][i % 4]), dtype=["float32", "float64", "int16", "uint8"][i % 4],
                           chunkings=[list(c) for c in _chunk_variants(r, shape, 2 if big else 1)],
                           seed=int(rng.integers(0, 10 ** 6)), scheduler=["synchronous", "threads"][i % 2]))
+    for i in range(3 if big else 1):
+        shape = [int(v) for v in rng.integers(38, 48, size=3)]
+        r = np.random.default_rng(int(rng.integers(0, 10 ** 6)))
+        cases.append(dict(kind="log", shape=shape, sigma=2.2, n=int(rng.integers(1, 4)), scale=float([1.0, 0.5, 2.0][i % 3]),
+                          dtype=["float32", "float64"][i % 2], diag=True, chunkings=[list(c) for c in _chunk_variants(r, shape, 1)],
+                          seed=int(rng.integers(0, 10 ** 6)), scheduler="synchronous"))
     # particles centred between two voxels (two equal maxima); the extra chunking cuts right between them
     for i in range(6 if big else 2):
         shape = [int(v) for v in rng.integers(36, 48, size=3)]
